@@ -59,11 +59,13 @@ func newTarget(label string) *target {
 func (t *target) start(r *runner) {
 	t.m.Lock()
 	if t.status != statusIdle {
+		verifPoint("start.skip", t)
 		t.m.Unlock()
 		return
 	}
 
 	t.status = statusRunning
+	verifPoint("start.spawn", t)
 	t.m.Unlock()
 
 	go t.run(r)
@@ -75,29 +77,38 @@ func (t *target) wait() error {
 
 	if t.status == statusRunning {
 		for t.status == statusRunning {
+			verifPoint("wait.block", t)
 			t.c.Wait()
+			verifPoint("wait.woke", t)
 		}
 	}
 
+	verifPoint("wait.done", t)
 	return t.err
 }
 
 func (t *target) run(r *runner) {
 	unlock := func() {
+		verifPoint("status.broadcast", t)
 		t.m.Unlock()
 		t.c.Broadcast()
 	}
 
+	verifPoint("run.begin", t)
+	defer verifPoint("run.end", t)
 	r.gate.enter()
 	defer r.gate.exit()
+	defer verifPoint("run.exit", t)
 
 	// Load the target.
 	tt, err := r.targetLoader.LoadTarget(t.label)
 	if err != nil {
+		verifPoint("status.lock", t)
 		t.m.Lock()
 		defer unlock()
 
 		t.status, t.err = statusFailed, err
+		verifPoint("status.set", t)
 		return
 	}
 	t.target = tt
@@ -108,9 +119,11 @@ func (t *target) run(r *runner) {
 		status = statusFailed
 	}
 
+	verifPoint("status.lock", t)
 	t.m.Lock()
 	defer unlock()
 	t.status, t.err = status, err
+	verifPoint("status.set", t)
 }
 
 type engine struct {
@@ -120,12 +133,16 @@ type engine struct {
 
 func (e *engine) check(dep *target) error {
 	if dep == e.root {
+		verifPoint("walk.self", dep)
 		return CyclicDependencyError(fmt.Sprintf("cyclic dependency on %v", dep.label))
 	}
 
+	verifPoint("walk.read", dep)
 	if waiting := dep.waiting.Load(); waiting != nil {
+		verifPoint("walk.saw", dep)
 		return e.checkDeps(*waiting)
 	}
+	verifPoint("walk.nil", dep)
 	return nil
 }
 
@@ -139,17 +156,24 @@ func (e *engine) checkDeps(deps []*target) error {
 }
 
 func (e *engine) EvaluateTargets(labels ...string) []Result {
+	verifPoint("eval.exit", e.root)
 	e.runner.gate.exit()
 	defer e.runner.gate.enter()
+	defer verifPoint("eval.reenter", e.root)
 
 	targets := make([]*target, len(labels))
 	for i, label := range labels {
+		verifPoint("eval.start", label)
 		targets[i] = e.runner.getTarget(label)
 		targets[i].start(e.runner)
 	}
 
+	verifPoint("eval.publish", e.root)
 	e.root.waiting.Swap(&targets)
+	verifPoint("eval.published", e.root)
+	defer verifPoint("eval.unpublished", e.root)
 	defer e.root.waiting.Swap(nil)
+	defer verifPoint("eval.unpublish", e.root)
 
 	results := make([]Result, len(targets))
 	if err := e.checkDeps(targets); err != nil {
@@ -159,8 +183,10 @@ func (e *engine) EvaluateTargets(labels ...string) []Result {
 		}
 		return results
 	}
+	verifPoint("eval.walked", e.root)
 
 	for i, t := range targets {
+		verifPoint("eval.wait", t)
 		results[i].Error = t.wait()
 		results[i].Target = t.target
 	}
@@ -184,9 +210,12 @@ func (g *gate) enter() {
 	defer g.m.Unlock()
 
 	for g.capacity == 0 {
+		verifPoint("gate.block", g)
 		g.cond.Wait()
+		verifPoint("gate.woke", g)
 	}
 	g.capacity--
+	verifPoint("gate.entered", g)
 }
 
 func (g *gate) exit() {
@@ -194,6 +223,7 @@ func (g *gate) exit() {
 	defer g.m.Unlock()
 
 	g.capacity++
+	verifPoint("gate.exited", g)
 	g.cond.Signal()
 }
 
@@ -210,7 +240,10 @@ func (r *runner) getTarget(label string) *target {
 
 func Run(targets Targets, label string) error {
 	r := runner{targetLoader: targets, gate: newGate(runtime.NumCPU())}
+	verifPoint("run.init", &r)
 	t := r.getTarget(label)
+	verifPoint("main.start", t)
 	t.start(&r)
+	verifPoint("main.wait", t)
 	return t.wait()
 }
